@@ -14,7 +14,9 @@ CovKeys == {"rows", "svd_rows", "svd_second_compute", "svd_rank_deficient", "svd
             "lob_rows", "lob_success", "lob_not_success", "lob_threw", "dav_rows", "dav_successful", "dav_notconv", "dav_restarts", "dav_guess", "dav_threw",
             "jd_iters", "mt_jobs", "mt_shared", "mt_private", "mt_breakdown", "mt_threads_max"}
 Bump(c, key, by) == [c EXCEPT ![key] = @ + by]
-Hit(rule) == [r |-> rule, run |-> 1, l |-> l]
+\* run = ordinal of the Reset line (descriptor) this row belongs to; computed only when a hit is recorded
+RunOf(k) == Cardinality({i \in 1 .. k : Tr[i].e = "Reset"})
+Hit(rule) == [r |-> rule, run |-> RunOf(l), l |-> l]
 If(c, rule) == IF c THEN {} ELSE {Hit(rule)}
 AddHits(m, new) == IF Cardinality(m) > 300 THEN m ELSE m \cup new
 MinI2(a, b) == IF a < b THEN a ELSE b
